@@ -245,10 +245,50 @@ def resolve (bk : Bucket) (k : String) (vid : Option (Option Nat)) : Except Err 
     | none => .error .noSuchKey
     | some r => if r.dm then .error .methodNotAllowed else .ok r
 
-/-- The write path shared by PutObject, CopyObject, and AppendObject-in-an-Enabled-bucket:
-`sqlMetadataStore.PutObject`. Returns the new bucket, the version id and the new counters. -/
-def putRow (q : Quirks) (s : State) (bk : Bucket) (k : String) (parts : List Bytes) (etag : ETag)
-    (o : WriteOpts) (inm : Bool) (im : IfMatch) : Except Err (State × Option Nat) :=
+/-- What a write installs as the new current version of a key. -/
+structure NewObj where
+  parts   : List Bytes
+  etag    : ETag
+  o       : WriteOpts := {}
+  /-- `created_at` override: a completed multipart upload keeps the time it was initiated
+      (the upload row becomes the object row). -/
+  created : Option Nat := none
+  seqBase : Nat := 0
+  deriving Repr, DecidableEq, Inhabited
+
+def mkRow (rowId : Nat) (k : String) (vid : Option Nat) (created now : Nat) (n : NewObj) : Row :=
+  { rowId := rowId, key := k, vid := vid, latest := true, created := created, updated := now, wrote := now,
+    parts := n.parts, etag := n.etag, ct := n.o.ct, md := n.o.md, tags := n.o.tags, cls := n.o.cls,
+    seqBase := n.seqBase }
+
+/-- Clear the latest flag of the current latest row of `k`, if there is one. -/
+def unlatestCur (q : Quirks) (now : Nat) (bk : Bucket) (k : String) : Bucket :=
+  match latestRow bk k with
+  | some r => unlatest q now bk r
+  | none => bk
+
+/-- Install `n` as the new current version of `k` (after all preconditions passed):
+versioning enabled ⇒ a new row with a fresh version id; otherwise the null version is replaced in
+place (same row: its `created_at` survives) or created. -/
+def install (q : Quirks) (s : State) (bk : Bucket) (k : String) (n : NewObj) : State × Option Nat :=
+  let now := s.clock
+  let bk2 := unlatestCur q now bk k
+  if bk.ver == .enabled then
+    let row := mkRow s.nextRow k (some s.nextVid) (n.created.getD now) now n
+    ({ setBucket s (addRow bk2 row) with nextVid := s.nextVid + 1, nextRow := s.nextRow + 1 }, row.vid)
+  else
+    match nullRow bk k with
+    | some nr =>
+      let row := mkRow nr.rowId k none (n.created.getD nr.created) now n
+      (setBucket s (replaceRow bk2 row), none)
+    | none =>
+      let row := mkRow s.nextRow k none (n.created.getD now) now n
+      ({ setBucket s (addRow bk2 row) with nextRow := s.nextRow + 1 }, none)
+
+/-- The write path shared by PutObject, CopyObject, CompleteMultipartUpload and
+AppendObject-as-a-new-row: `sqlMetadataStore.PutObject` / the tail of `CompleteMultipartUpload`. -/
+def putRow (q : Quirks) (s : State) (bk : Bucket) (k : String) (n : NewObj)
+    (inm : Bool) (im : IfMatch) : Except Err (State × Option Nat) :=
   let now := s.clock
   let cur := latestRow bk k
   let exists_ := match cur with | some r => !r.dm | none => false
@@ -259,30 +299,8 @@ def putRow (q : Quirks) (s : State) (bk : Bucket) (k : String) (parts : List Byt
     let bk1 := match cur with
       | some r => if inm || im != .none then replaceRow bk (touch q now r) else bk
       | none => bk
-    let cur1 := latestRow bk1 k
-    if bk.ver == .enabled then
-      let bk2 := match cur1 with | some r => unlatest q now bk1 r | none => bk1
-      let row : Row := { rowId := s.nextRow, key := k, vid := some s.nextVid, latest := true,
-                         created := now, updated := now, wrote := now, parts := parts, etag := etag,
-                         ct := o.ct, md := o.md, tags := o.tags, cls := o.cls }
-      .ok ({ setBucket s (addRow bk2 row) with nextVid := s.nextVid + 1, nextRow := s.nextRow + 1 }, row.vid)
-    else
-      match nullRow bk1 k with
-      | some n =>
-        if inm then .error .preconditionFailed
-        else
-          let bk2 := match cur1 with | some r => unlatest q now bk1 r | none => bk1
-          -- the null version is overwritten in place: same row, same created_at
-          let row : Row := { rowId := n.rowId, key := k, vid := none, latest := true,
-                             created := n.created, updated := now, wrote := now, parts := parts, etag := etag,
-                             ct := o.ct, md := o.md, tags := o.tags, cls := o.cls }
-          .ok (setBucket s (replaceRow bk2 row), none)
-      | none =>
-        let bk2 := match cur1 with | some r => unlatest q now bk1 r | none => bk1
-        let row : Row := { rowId := s.nextRow, key := k, vid := none, latest := true,
-                           created := now, updated := now, wrote := now, parts := parts, etag := etag,
-                           ct := o.ct, md := o.md, tags := o.tags, cls := o.cls }
-        .ok ({ setBucket s (addRow bk2 row) with nextRow := s.nextRow + 1 }, none)
+    if inm && bk.ver != .enabled && (nullRow bk1 k).isSome then .error .preconditionFailed
+    else .ok (install q s bk1 k n)
 
 /-- After deleting a latest row: promote the next one. -/
 def promote (q : Quirks) (now : Nat) (bk : Bucket) (k : String) : Bucket :=
@@ -377,7 +395,7 @@ def step (q : Quirks) (s0 : State) (op : Op) : State × Out :=
     else ({ s with buckets := s.buckets.filter (·.name != b) }, .unit)
   | .setVer b v => withBucket b fun bk => (setBucket s { bk with ver := v }, .unit)
   | .put b k body o inm im => withBucket b fun bk =>
-    match putRow q s bk k [body] (singleETag body) o inm im with
+    match putRow q s bk k { parts := [body], etag := singleETag body, o := o } inm im with
     | .error e => (s, .err e)
     | .ok (s', vid) => (s', .wrote vid (singleETag body))
   | .get b k vid => withBucket b fun bk =>
@@ -406,7 +424,7 @@ def step (q : Quirks) (s0 : State) (op : Op) : State × Out :=
               md := if replaceMeta then o.md else sortBy (fun a b => a.1 < b.1) (strip src.md ++ wr)
               tags := if replaceTags then o.tags else src.tags
               cls := o.cls }
-          match putRow q s dbk dk src.parts src.etag o' false .none with
+          match putRow q s dbk dk { parts := src.parts, etag := src.etag, o := o' } false .none with
           | .error e => (s, .err e)
           | .ok (s', vid) => (s', .wrote vid src.etag)
   | .append b k body off => withBucket b fun bk =>
@@ -426,7 +444,7 @@ def step (q : Quirks) (s0 : State) (op : Op) : State × Out :=
           | some r => if q.appendEnabledDropsMeta then { ct := r.ct }
                       else { ct := r.ct, md := r.md, tags := r.tags, cls := r.cls }
           | none => {}
-        match putRow q s bk k parts etag o false .none with
+        match putRow q s bk k { parts := parts, etag := etag, o := o } false .none with
         | .error e => (s, .err e)
         | .ok (s', _) => (s', .appended etag size)
       else
@@ -453,7 +471,7 @@ def step (q : Quirks) (s0 : State) (op : Op) : State × Out :=
             let o : WriteOpts := match existing with
               | some r => { ct := r.ct, md := r.md, tags := r.tags, cls := r.cls }
               | none => {}
-            match putRow q s bk k parts etag o false .none with
+            match putRow q s bk k { parts := parts, etag := etag, o := o } false .none with
             | .error e => (s, .err e)
             | .ok (s', _) => (s', .appended etag size)
   | .mpu b k o => withBucket b fun bk =>
@@ -487,42 +505,12 @@ def step (q : Quirks) (s0 : State) (op : Op) : State × Out :=
           let parts := u.parts.map (·.2)
           -- (an upload with no parts completes to an empty object with ETag "…-0")
           let etag := multiETag parts
-          let cur := latestRow bk k
-          let exists_ := match cur with | some r => !r.dm | none => false
-          if !ifMatchOk im cur then (s, .err .preconditionFailed)
-          else if inm && exists_ then (s, .err .preconditionFailed)
-          else
-            let bk0 := { bk with uploads := bk.uploads.filter (·.uid != uid) }
-            let bk1 := match cur with
-              | some r => if inm || im != .none then replaceRow bk0 (touch q now r) else bk0
-              | none => bk0
-            let cur1 := latestRow bk1 k
-            if bk.ver == .enabled then
-              let bk2 := match cur1 with | some r => unlatest q now bk1 r | none => bk1
-              -- the upload row becomes the object row: created_at = initiation time
-              let row : Row := { rowId := s.nextRow, key := k, vid := some s.nextVid, latest := true,
-                                 created := u.created, updated := now, wrote := now, parts := parts, etag := etag,
-                                 ct := u.ct, md := u.md, tags := u.tags, cls := u.cls, seqBase := 1 }
-              ({ setBucket s (addRow bk2 row) with nextVid := s.nextVid + 1, nextRow := s.nextRow + 1 },
-               .wrote row.vid etag)
-            else
-              match nullRow bk1 k with
-              | some n =>
-                if inm then (s, .err .preconditionFailed) else
-                let bk2 := removeRow bk1 n.rowId
-                let bk3 := match cur1 with
-                  | some r => if r.rowId == n.rowId then bk2 else unlatest q now bk2 r
-                  | none => bk2
-                let row : Row := { rowId := s.nextRow, key := k, vid := none, latest := true,
-                                   created := u.created, updated := now, wrote := now, parts := parts, etag := etag,
-                                   ct := u.ct, md := u.md, tags := u.tags, cls := u.cls, seqBase := 1 }
-                ({ setBucket s (addRow bk3 row) with nextRow := s.nextRow + 1 }, .wrote none etag)
-              | none =>
-                let bk2 := match cur1 with | some r => unlatest q now bk1 r | none => bk1
-                let row : Row := { rowId := s.nextRow, key := k, vid := none, latest := true,
-                                   created := u.created, updated := now, wrote := now, parts := parts, etag := etag,
-                                   ct := u.ct, md := u.md, tags := u.tags, cls := u.cls, seqBase := 1 }
-                ({ setBucket s (addRow bk2 row) with nextRow := s.nextRow + 1 }, .wrote none etag)
+          -- the upload row becomes the object row: created_at = initiation time, part rows numbered from 1
+          let bk0 := { bk with uploads := bk.uploads.filter (·.uid != uid) }
+          match putRow q s bk0 k { parts := parts, etag := etag, o := { ct := u.ct, md := u.md, tags := u.tags, cls := u.cls },
+                                   created := some u.created, seqBase := 1 } inm im with
+          | .error e => (s, .err e)
+          | .ok (s', vid) => (s', .wrote vid etag)
   | .abort b k uid => withBucket b fun bk =>
     match bk.uploads.find? (fun u => u.uid == uid && u.key == k) with
     | none => (s, .err .noSuchKey)
